@@ -410,6 +410,13 @@ def _eq_pt(p, q):
     return _and(_eq_scalar(p[0], q[0]), _eq_scalar(p[1], q[1]))
 
 
+def _all_eq(X, Y):
+    X, Y = np.asarray(hx.unwrap(X)), np.asarray(hx.unwrap(Y))
+    if X.shape != Y.shape:
+        return False
+    return _and(*[_eq_scalar(x, y) for x, y in zip(X.reshape(-1), Y.reshape(-1))])
+
+
 def same_triangle(t, u):
     """t and u have the same three vertices (in any order) - a formula, no forking"""
     return _or(*[_and(*[_eq_pt(t[k], u[perm[k]]) for k in range(3)]) for perm in itertools.permutations(range(3))])
@@ -528,14 +535,16 @@ def derived_obligations(A, E, tag, D, W, idx):
         A[tag + "with_vertices"] = D
         E[tag + "with_vertices"] = "no exception"
         return PW
-    A[tag + "with_vertices.triangles_are_new_vertices[indices]"] = _safe(lambda: np.asarray(hx.unwrap(D.triangles)).reshape(-1, 3, 2))
-    E[tag + "with_vertices.triangles_are_new_vertices[indices]"] = W[idx].reshape(-1, 3, 2)
-    A[tag + "with_vertices.vertices"] = _safe(lambda: np.asarray(hx.unwrap(D.vertices)).reshape(-1, 2))
-    E[tag + "with_vertices.vertices"] = W.reshape(-1, 2)
-    A[tag + "with_vertices.len"] = _safe(lambda: len(D))
-    E[tag + "with_vertices.len"] = len(PW)
-    A[tag + "NL.with_vertices.area"] = _safe(lambda: D.area)
-    E[tag + "NL.with_vertices.area"] = shoelace_sum(PW)
+    # boolean form: the number of distinct vertices of a lattice set (hence the slice of W used) can differ between the exact and the
+    # float64 run when float vertices coincide only up to rounding, so the outputs themselves are not compared across the two runs
+    A[tag + "with_vertices.triangles_are_new_vertices[indices]"] = _safe(lambda: _all_eq(D.triangles, W[idx].reshape(-1, 3, 2)))
+    E[tag + "with_vertices.triangles_are_new_vertices[indices]"] = True
+    A[tag + "with_vertices.vertices"] = _safe(lambda: _all_eq(D.vertices, W.reshape(-1, 2)))
+    E[tag + "with_vertices.vertices"] = True
+    A[tag + "with_vertices.len"] = _safe(lambda: len(D) == len(PW))
+    E[tag + "with_vertices.len"] = True
+    A[tag + "NL.with_vertices.area"] = _safe(lambda: _eq_scalar(D.area, shoelace_sum(PW)))
+    E[tag + "NL.with_vertices.area"] = True
     return PW
 
 
